@@ -548,16 +548,12 @@ def m_from_utf8(I, c, args, fr):
             return ok(SliceRef(s.back, s.lo, s.hi, 'str'))
         except UnicodeDecodeError:
             return err(Opaque('Utf8Error'))
-    for x in items:
-        if is_sym(x) and not isinstance(x, (WChar, DecRun)):
-            if not I.ctx.decide(z3.ULT(x, 0x80)):
-                # a symbolic non-ASCII byte: validity depends on neighbours.  Handled by the harness-provided
-                # utf8 oracle when installed, otherwise inconclusive.
-                h = getattr(I, 'utf8_hook', None)
-                if h is not None:
-                    return h(I, s)
-                raise Unsupported('from_utf8 on symbolic non-ASCII bytes')
-    return ok(SliceRef(s.back, s.lo, s.hi, 'str'))
+    if any(isinstance(x, (WChar, DecRun, FloatLit)) for x in items):
+        return ok(SliceRef(s.back, s.lo, s.hi, 'str'))
+    from oracles.utf8 import utf8_valid
+    if utf8_valid(I.ctx, items):
+        return ok(SliceRef(s.back, s.lo, s.hi, 'str'))
+    return err(Opaque('Utf8Error'))
 
 @model('from_utf8_unchecked', 'str::from_utf8_unchecked')
 def m_from_utf8_unchecked(I, c, args, fr):
